@@ -16,6 +16,21 @@ func Ans(req *requests.Request, data map[string]interface{}) bool { panic("ghost
 // FileReq: the request carries file uploads (decided by extractFiles).
 func FileReq(req *requests.Request) bool { panic("ghost") }
 
+// QueryCalls is ghost state: the number of Queryer.Query invocations so far (every
+// downstream round trip of queries and mutations goes through that method).
+var QueryCalls int
+
+//@ func Queryer.Query
+//@ props C11 C12 C06 C10
+//@ params inputs
+//@ returns res, err
+//@ ensures[len] err == nil ==> len(res) == len(inputs)
+//@ ensures[ans] err == nil ==> forall(k, 0, len(inputs), Ans(inputs[k], res[k]))
+//@ ensures[no-partial] err != nil ==> res == nil
+//@ assumes-post QueryCalls == old(QueryCalls) + 1
+//@ modifies fresh, entries(map[string]interface{}), elems(interface{}), elems(map[string]interface{}), global(QueryCalls)
+//@ end
+
 //@ define chunkHi(i int, m int, n int) int = ite((i+1)*m > n, n, (i+1)*m)
 //@ opaque chunkOf(p int, m int) int = p / m
 
